@@ -141,6 +141,12 @@ Proof. induction a; simpl; lia. Qed.
 
 Definition wf_cfg (c : cfg) : Prop := 0 <= c_peer c /\ 0 <= c_host c /\ 0 <= c_token c.
 
+(* the CryptoPair can encrypt every packet that fits a datagram: it has no size limit, or max_datagram_size does
+   not exceed its limit (aioquic's CryptoPair: 1500).  Otherwise encrypt_packet raises CryptoError in the middle of
+   _end_packet for full-size packets, datagrams_to_send propagates it and the builder is abandoned. *)
+Definition crypto_fits (c : cfg) : Prop :=
+  match c_cmax c with Some m => c_mds c <= m | None => True end.
+
 Lemma header_size_nonneg c t : wf_cfg c -> 0 <= header_size c t.
 Proof.
   unfold wf_cfg, header_size, LONG_HEADER_FIXED, SHORT_HEADER_FIXED. intros (?&?&?).
@@ -149,26 +155,36 @@ Proof.
   destr; lia.
 Qed.
 
+(* the reservation made by start_frame for an empty packet covers the sample padding of _end_packet:
+   START_FRAME_EMPTY_RESERVE is read from the source by tools/gen/c13_consts.py *)
+Lemma reserve_covers_sample : PACKET_NUMBER_MAX_SIZE - PACKET_NUMBER_SEND_SIZE <= START_FRAME_EMPTY_RESERVE.
+Proof. unfold PACKET_NUMBER_MAX_SIZE, PACKET_NUMBER_SEND_SIZE, START_FRAME_EMPTY_RESERVE. lia. Qed.
+
+(* smallest payload _end_packet ever sends (shorter payloads are padded up to it) *)
+Definition MIN_PAYLOAD : Z := PACKET_NUMBER_MAX_SIZE - PACKET_NUMBER_SEND_SIZE.
+
 Section Budget.
 Variable c : cfg.
 Variable mt : Z.
-Variable d : Z.     (* slack: 1 in general; 0 when no packet with a one-byte payload is completed *)
 Hypothesis Hmt : c_max_total c = Some mt.
 Hypothesis Hwf : wf_cfg c.
-Hypothesis Hd : d = 0 \/ d = 1.
+Hypothesis Hfit : crypto_fits c.
 
 Definition Inv (s : st) : Prop :=
   0 <= b_tell s /\
   b_fcap s <= b_bcap s /\
   0 <= b_total s /\
-  (b_total s = 0 \/ b_total s <= mt + d) /\
+  (b_total s = 0 \/ b_total s <= mt) /\
   Forall (fun n => 0 <= n) (b_dgrams s) /\
   (b_dginit s = true -> b_tell s = 0 /\ b_cur s = None) /\
   (b_dginit s = false -> b_bcap s <= mt - b_total s) /\
-  (b_cur s = None -> b_tell s = 0 \/ b_tell s <= b_bcap s + d) /\
+  (b_cur s = None -> b_tell s = 0 \/ b_tell s <= b_bcap s) /\
+  b_bcap s <= c_mds c /\
   (forall p, b_cur s = Some p ->
      0 <= p_start p /\ 0 <= p_hdr p /\ p_start p + p_hdr p < b_bcap s /\
-     (b_tell s <= p_start p + p_hdr p \/ b_tell s + AEAD_TAG_SIZE <= b_bcap s) /\ p_start p <= b_tell s).
+     (b_tell s <= p_start p + p_hdr p \/ b_tell s + AEAD_TAG_SIZE <= b_bcap s) /\ p_start p + p_hdr p <= b_tell s /\
+     (* a non-empty packet was started with room for the padded minimum payload and the tag *)
+     (p_start p + p_hdr p < b_tell s -> p_start p + p_hdr p + MIN_PAYLOAD + AEAD_TAG_SIZE <= b_bcap s)).
 
 (* flush of a datagram whose length respects the slack *)
 Lemma flush_current_inv s o s' :
@@ -177,7 +193,7 @@ Proof.
   unfold flush_current. intros HI Hc E.
   destruct (b_tell s =? 0) eqn:T0; [inversion E; subst; auto|].
   cbv zeta in E.
-  destruct HI as (H0&H1&H2&H3&H4&H5&H6&H7&H8).
+  destruct HI as (H0&H1&H2&H3&H4&H5&H6&H7&HM&H8).
   destruct (b_dginit s) eqn:DI; [destruct (H5 eq_refl); lia|].
   specialize (H6 eq_refl). specialize (H7 Hc).
   assert (Hnone : forall (P : pkt -> Prop) p, @None pkt = Some p -> P p) by (intros; discriminate).
@@ -194,11 +210,11 @@ Lemma flush_current_gen s o s' :
   0 <= b_tell s -> b_fcap s <= b_bcap s -> 0 <= b_total s ->
   Forall (fun n => 0 <= n) (b_dgrams s) ->
   b_dginit s = false -> b_bcap s <= mt - b_total s ->
-  b_tell s <= b_bcap s + d ->
+  b_tell s <= b_bcap s ->
   flush_current c s = (o, s') ->
   (s' = s /\ (o = ODone /\ b_tell s = 0 \/ o = OBufferWrite /\ (b_dgpad s = false -> b_tell s > c_mds c))) \/
   (o = ODone /\ b_tell s' = 0 /\ b_dginit s' = true /\ b_cur s' = b_cur s /\ b_bcap s' = b_bcap s /\
-   b_fcap s' = b_fcap s /\ 0 <= b_total s' /\ b_total s' <= mt + d /\ Forall (fun n => 0 <= n) (b_dgrams s')).
+   b_fcap s' = b_fcap s /\ 0 <= b_total s' /\ b_total s' <= mt /\ Forall (fun n => 0 <= n) (b_dgrams s')).
 Proof.
   unfold flush_current. intros H0 H1 H2 H4 DI H6 H7 E.
   destruct (b_tell s =? 0) eqn:T0; [inversion E; subst; left; split; auto; left; split; auto; lia|].
@@ -219,12 +235,12 @@ Ltac solve_inv Hnone :=
   try (apply Forall_app; split; auto; constructor; auto; lia).
 
 Lemma end_packet_inv s p o s' :
-  Inv s -> b_cur s = Some p -> (d = 0 -> b_tell s - p_start p - p_hdr p <> 1) ->
+  Inv s -> b_cur s = Some p ->
   end_packet c s p = (o, s') -> Inv s' /\ (o = ODone -> b_cur s' = None).
 Proof.
-  intros HI Hc Hns E.
-  destruct HI as (H0&H1&H2&H3&H4&H5&H6&H7&H8).
-  destruct (H8 p Hc) as (P0&P1&P2&P3&P4).
+  intros HI Hc E.
+  destruct HI as (H0&H1&H2&H3&H4&H5&H6&H7&HM&H8).
+  destruct (H8 p Hc) as (P0&P1&P2&P3&P4&P5).
   destruct (b_dginit s) eqn:DI; [destruct (H5 eq_refl); congruence|].
   specialize (H6 eq_refl).
   assert (Hnone : forall (P : pkt -> Prop) q, @None pkt = Some q -> P q) by (intros; discriminate).
@@ -235,8 +251,9 @@ Proof.
   cbv zeta in E.
   (* stage A: the padding amount *)
   match type of E with context[let '(_, _) := ?X in _] => destruct X as [padding pad2] eqn:PP end.
-  assert (PB : padding <= d \/ (0 < padding /\ b_tell s + padding + AEAD_TAG_SIZE <= b_bcap s)).
-  { unfold remaining_flight_space, PACKET_NUMBER_MAX_SIZE, PACKET_NUMBER_SEND_SIZE, AEAD_TAG_SIZE in *.
+  assert (PB : padding <= 0 \/ (0 < padding /\ b_tell s + padding + AEAD_TAG_SIZE <= b_bcap s)).
+  { assert (P5' := P5). unfold MIN_PAYLOAD in P5'.
+    unfold remaining_flight_space in *.
     destruct (_ && (p_type p =? PT_ONE_RTT)) in PP.
     - destruct (_ >? _) eqn:RF in PP; apply pair_equal_spec in PP; destruct PP as [<- <-]; lia.
     - apply pair_equal_spec in PP; destruct PP as [<- <-]. lia. }
@@ -254,6 +271,9 @@ Proof.
   assert (PZ : psz = b_tell s - p_start p + Z.max padding 0).
   { destruct (padding >? 0) eqn:G in PS; apply pair_equal_spec in PS; destruct PS as [<- <-]; lia. }
   clear PS.
+  (* stage C': encrypt_packet cannot raise CryptoError, the packet fits the datagram *)
+  destruct (match c_cmax c with Some m => psz + AEAD_TAG_SIZE >? m | None => false end) eqn:CE.
+  { exfalso. unfold crypto_fits in Hfit. destruct (c_cmax c); [|discriminate]. lia. }
   (* stage D: encrypted packet push *)
   destruct (p_start p + (psz + AEAD_TAG_SIZE) >? c_mds c) eqn:EE.
   { inversion E; subst; clear E. split; [|intros; discriminate].
@@ -275,9 +295,9 @@ Proof.
 Qed.
 
 Lemma end_current_inv s o s' :
-  Inv s -> (d = 0 -> cur_payload s <> 1) -> end_current c s = (o, s') -> Inv s' /\ (o = ODone -> b_cur s' = None).
+  Inv s -> end_current c s = (o, s') -> Inv s' /\ (o = ODone -> b_cur s' = None).
 Proof.
-  unfold end_current, cur_payload. intros HI Hns E. destruct (b_cur s) as [p|] eqn:Hc.
+  unfold end_current. intros HI E. destruct (b_cur s) as [p|] eqn:Hc.
   - eapply end_packet_inv; eauto.
   - inversion E; subst. auto.
 Qed.
@@ -287,16 +307,10 @@ Lemma datagram_init_inv s :
                              b_dginit (datagram_init c s) = false /\ b_tell (datagram_init c s) = b_tell s.
 Proof.
   unfold datagram_init. intros HI Hc. destruct (b_dginit s) eqn:DI; [|auto].
-  destruct HI as (H0&H1&H2&H3&H4&H5&H6&H7&H8). destruct (H5 DI) as [T0 _].
+  destruct HI as (H0&H1&H2&H3&H4&H5&H6&H7&HM&H8). destruct (H5 DI) as [T0 _].
   rewrite Hmt. simpl. repeat split; auto; unfold Inv; simpl; rewrite ?Hc, ?T0.
-  repeat split; try lia; auto; try discriminate.
-  - destruct (c_max_flight c); destr; lia.
-  - destr; lia.
-  - simpl in *; congruence.
-  - simpl in *; congruence.
-  - simpl in *; congruence.
-  - simpl in *; congruence.
-  - simpl in *; congruence.
+  all: repeat split; try lia; auto; try discriminate;
+    try (destruct (c_max_flight c); destr; lia); try (destr; lia); try (intros; simpl in *; congruence).
 Qed.
 
 Lemma start_packet_tail s2 t o s' :
@@ -313,7 +327,7 @@ Proof.
   intros I2 C2 E. cbv zeta in E.
   destruct (datagram_init_inv s2 I2 C2) as (I3 & C3 & D3 & T3).
   destruct (b_tell s2 + header_size c t >=? b_bcap (datagram_init c s2)) eqn:G; inversion E; subst; clear E; auto.
-  destruct I3 as (H0&H1&H2&H3&H4&H5&H6&H7&H8).
+  destruct I3 as (H0&H1&H2&H3&H4&H5&H6&H7&HM&H8).
   pose proof (header_size_nonneg c t Hwf).
   unfold Inv; simpl. rewrite D3 in *. rewrite T3 in *.
   repeat split; try lia; auto; try discriminate.
@@ -321,12 +335,12 @@ Proof.
 Qed.
 
 Lemma start_packet_inv s t o s' :
-  Inv s -> (d = 0 -> cur_payload s <> 1) -> start_packet c s t = (o, s') -> Inv s'.
+  Inv s -> start_packet c s t = (o, s') -> Inv s'.
 Proof.
-  unfold start_packet. intros HI Hns E.
+  unfold start_packet. intros HI E.
   destruct (negb (valid_ptype t)); [inversion E; subst; auto|].
   destruct (end_current c s) as [o1 s1] eqn:E1.
-  destruct (end_current_inv _ _ _ HI Hns E1) as [I1 C1].
+  destruct (end_current_inv _ _ _ HI E1) as [I1 C1].
   destruct o1; try (inversion E; subst; exact I1). specialize (C1 eq_refl).
   destruct (b_bcap s1 - b_tell s1 <? DATAGRAM_MIN_SPACE).
   - destruct (flush_current c s1) as [o2 s2] eqn:F. destruct (flush_current_inv _ _ _ I1 C1 F) as [I2 C2].
@@ -342,69 +356,73 @@ Proof.
   destruct (b_cur s) as [p|] eqn:Hc; [|discriminate].
   destruct (size_uint_var _) as [sz|] eqn:SZ; [|discriminate].
   assert (1 <= sz) by (unfold size_uint_var in SZ; revert SZ; destr; intros SZ; inversion SZ; lia).
+  cbv zeta in E.
   destruct (negb (b_hascrypto s)); [inversion E; subst; auto|].
   destruct (_ || _) eqn:ST in E; [inversion E; subst; auto|].
   destruct (b_tell s + sz >? c_mds c); inversion E; subst; clear E; auto.
-  destruct HI as (H0&H1&H2&H3&H4&H5&H6&H7&H8). destruct (H8 p Hc) as (P0&P1&P2&P3&P4).
+  destruct HI as (H0&H1&H2&H3&H4&H5&H6&H7&HM&H8). destruct (H8 p Hc) as (P0&P1&P2&P3&P4&P5).
+  pose proof reserve_covers_sample as RS. fold MIN_PAYLOAD in RS.
+  (* the space check, with the capacity raised to the reserve when the packet is empty *)
+  assert (SP : b_tell s + sz + AEAD_TAG_SIZE <= b_bcap s /\
+               (b_tell s <= p_start p + p_hdr p -> b_tell s + MIN_PAYLOAD + AEAD_TAG_SIZE <= b_bcap s)).
+  { apply orb_false_iff in ST. destruct ST as [ST _].
+    destruct (b_tell s - p_start p <=? p_hdr p) eqn:EM.
+    - destruct (cap <? START_FRAME_EMPTY_RESERVE) eqn:CR; lia.
+    - lia. }
+  destruct SP as [SP1 SP2].
   unfold Inv, set_cur, set_tell; simpl.
   repeat split; try lia; auto; try discriminate.
-  all: try (match goal with H : Some _ = Some _ |- _ => inversion H; subst; clear H end; simpl; lia).
   all: try (match goal with DI : b_dginit _ = true |- _ => destruct (H5 DI); simpl in *; try congruence; lia end).
+  all: match goal with H : Some _ = Some _ |- _ => inversion H; subst; clear H end; simpl; try lia.
 Qed.
 
 Lemma push_inv s n o s' :
   Inv s -> op_disciplined s (OpPush n) = true -> push c s n = (o, s') -> Inv s'.
 Proof.
-  unfold push, op_disciplined, remaining_buffer_space. intros HI HD E.
+  unfold push, op_disciplined, cur_nonempty, remaining_buffer_space. intros HI HD E.
   destruct (b_cur s) as [p|] eqn:Hc; [|discriminate].
   destruct (n <? 0); [inversion E; subst; auto|].
   destruct (b_tell s + n >? c_mds c); inversion E; subst; clear E; auto.
-  destruct HI as (H0&H1&H2&H3&H4&H5&H6&H7&H8). destruct (H8 p Hc) as (P0&P1&P2&P3&P4).
+  destruct HI as (H0&H1&H2&H3&H4&H5&H6&H7&HM&H8). destruct (H8 p Hc) as (P0&P1&P2&P3&P4&P5).
   unfold Inv, set_tell; simpl. rewrite Hc.
   repeat split; try lia; auto; try discriminate.
-  all: try (match goal with H : Some _ = Some _ |- _ => inversion H; subst; clear H end; simpl; lia).
   all: try (match goal with DI : b_dginit _ = true |- _ => destruct (H5 DI); simpl in *; try congruence; lia end).
+  all: match goal with H : Some _ = Some _ |- _ => inversion H; subst; clear H end; simpl; try lia.
 Qed.
 
 Lemma flush_inv s o s' dg pk :
-  Inv s -> (d = 0 -> cur_payload s <> 1) -> flush c s = (o, s', dg, pk) -> Inv s'.
+  Inv s -> flush c s = (o, s', dg, pk) -> Inv s'.
 Proof.
-  unfold flush. intros HI Hns E.
+  unfold flush. intros HI E.
   destruct (end_current c s) as [o1 s1] eqn:E1.
-  destruct (end_current_inv _ _ _ HI Hns E1) as [I1 C1].
+  destruct (end_current_inv _ _ _ HI E1) as [I1 C1].
   destruct o1; try (inversion E; subst; exact I1). specialize (C1 eq_refl).
   destruct (flush_current c s1) as [o2 s2] eqn:F. destruct (flush_current_inv _ _ _ I1 C1 F) as [I2 C2].
   destruct o2; inversion E; subst; clear E; auto.
-  destruct I2 as (H0&H1&H2&H3&H4&H5&H6&H7&H8).
+  destruct I2 as (H0&H1&H2&H3&H4&H5&H6&H7&HM&H8).
   unfold Inv; simpl. repeat split; auto.
   all: try (match goal with DI : b_dginit _ = true |- _ => destruct (H5 DI); auto end).
-  all: match goal with H : b_cur _ = Some ?p |- _ => destruct (H8 p H) as (?&?&?&?&?); auto end.
+  all: match goal with H : b_cur _ = Some ?p |- _ => destruct (H8 p H) as (?&?&?&?&?&?); auto end.
 Qed.
 
 Lemma step_inv s o r s' dg :
-  Inv s -> op_disciplined s o = true -> (d = 0 -> op_nosample s o = true) ->
-  step c s o = (r, s', dg) -> Inv s'.
+  Inv s -> op_disciplined s o = true -> step c s o = (r, s', dg) -> Inv s'.
 Proof.
-  intros HI HD HN E. destruct o; simpl in E.
+  intros HI HD E. destruct o; simpl in E.
   - destruct (start_packet c s t) eqn:F. inversion E; subst. eapply start_packet_inv; eauto.
-    intros D0 X. specialize (HN D0). simpl in HN. rewrite X in HN. discriminate.
   - destruct (start_frame c s ft cap) eqn:F. inversion E; subst. eapply start_frame_inv; eauto.
   - destruct (push c s n) eqn:F. inversion E; subst. eapply push_inv; eauto.
   - destruct (flush c s) as [[[r0 s0] d0] p0] eqn:F. inversion E; subst. eapply flush_inv; eauto.
-    intros D0 X. specialize (HN D0). simpl in HN. rewrite X in HN. discriminate.
 Qed.
 
 Lemma run_inv ops : forall s,
-  Inv s -> disciplined c s ops = true -> (d = 0 -> nosample c s ops = true) -> Inv (fst (run c s ops)).
+  Inv s -> disciplined c s ops = true -> Inv (fst (run c s ops)).
 Proof.
-  induction ops as [|o t IH]; intros s HI HD HN; simpl; auto.
+  induction ops as [|o t IH]; intros s HI HD; simpl; auto.
   simpl in HD. apply andb_true_iff in HD. destruct HD as [HD1 HD2].
-  assert (HN1 : d = 0 -> op_nosample s o = true) by (intros D0; specialize (HN D0); simpl in HN; apply andb_true_iff in HN; tauto).
   destruct (step c s o) as [[r s'] dg] eqn:E.
-  pose proof (step_inv _ _ _ _ _ HI HD1 HN1 E) as I'.
-  assert (HN2 : d = 0 -> nosample c s' t = true).
-  { intros D0; specialize (HN D0); simpl in HN; rewrite E in HN; apply andb_true_iff in HN; tauto. }
-  specialize (IH s' I' HD2 HN2). destruct (run c s' t); simpl in *; auto.
+  pose proof (step_inv _ _ _ _ _ HI HD1 E) as I'.
+  specialize (IH s' I' HD2). destruct (run c s' t); simpl in *; auto.
 Qed.
 
 Lemma init_inv pn : Inv (init_st c pn).
@@ -434,6 +452,7 @@ Proof.
   match type of E with context[let '(_, _) := ?X in _] => destruct X as [padding pad2] end.
   destruct (_ && _) in E; [inversion E; subst; reflexivity|].
   match type of E with context[let '(_, _) := ?X in _] => destruct X as [psz infl] end.
+  destruct (match c_cmax c with Some m => _ | None => false end) in E; [inversion E; subst; reflexivity|].
   destruct (_ >? c_mds c) in E; [inversion E; subst; reflexivity|].
   destruct (p_type p =? PT_ONE_RTT).
   - match type of E with context[flush_current c ?s2] => destruct (flush_current c s2) as [o3 s3] eqn:F end.
@@ -494,60 +513,54 @@ End Sum.
 Lemma zsum_nonneg l : Forall (fun n => 0 <= n) l -> 0 <= zsum l.
 Proof. induction 1; simpl; lia. Qed.
 
-(* total_le_budget, general form.  For every configuration with max_total_bytes = mt (any max_datagram_size, any
-   max_flight_bytes), every op sequence that respects the caller discipline:
-   the bytes of all datagrams handed out are <= mt + 1; and <= mt when no packet is completed with a one-byte payload.
-   (When mt < 0 nothing is sent at all.) *)
-Theorem total_le_budget_slack :
+(* total_le_budget (strict).  For every configuration with max_total_bytes = mt (any max_datagram_size, any
+   max_flight_bytes, any CID / token lengths, any first packet number) and every op sequence that respects the caller
+   discipline: the bytes of all datagrams handed out are <= mt.  (When mt <= 0 nothing is sent at all.)
+   Before fix e93c691 the bound was mt + 1 (header-protection sample padding of a one-byte packet); start_frame now
+   reserves START_FRAME_EMPTY_RESERVE bytes in an empty packet, and reserve_covers_sample ties that constant to
+   the padding computed by _end_packet. *)
+Theorem total_le_budget_strict :
   forall (c : cfg) (mt pn : Z) (ops : list op),
-    c_max_total c = Some mt -> wf_cfg c ->
+    c_max_total c = Some mt -> wf_cfg c -> crypto_fits c ->
     disciplined c (init_st c pn) ops = true ->
-    zsum (snd (run c (init_st c pn) ops)) <= Z.max 0 (mt + 1).
-Proof.
-  intros c mt pn ops Hmt Hwf HD.
-  assert (HI : Inv mt 1 (fst (run c (init_st c pn) ops))).
-  { apply (run_inv c mt 1 Hmt Hwf); auto. apply init_inv. intros; lia. }
-  pose proof (run_U c ops (init_st c pn)) as HU. unfold U in HU; simpl in HU.
-  destruct HI as (H0&H1&H2&H3&H4&_). apply zsum_nonneg in H4. lia.
-Qed.
-
-(* ... and exactly the budget when no packet with a one-byte payload is completed *)
-Theorem total_le_budget_nosample :
-  forall (c : cfg) (mt pn : Z) (ops : list op),
-    c_max_total c = Some mt -> wf_cfg c ->
-    disciplined c (init_st c pn) ops = true -> nosample c (init_st c pn) ops = true ->
     zsum (snd (run c (init_st c pn) ops)) <= Z.max 0 mt.
 Proof.
-  intros c mt pn ops Hmt Hwf HD HN.
-  assert (HI : Inv mt 0 (fst (run c (init_st c pn) ops))).
-  { apply (run_inv c mt 0 Hmt Hwf); auto. apply init_inv. }
+  intros c mt pn ops Hmt Hwf Hfit HD.
+  assert (HI : Inv c mt (fst (run c (init_st c pn) ops))).
+  { apply (run_inv c mt Hmt Hwf Hfit); auto. apply init_inv. }
   pose proof (run_U c ops (init_st c pn)) as HU. unfold U in HU; simpl in HU.
   destruct HI as (H0&H1&H2&H3&H4&_). apply zsum_nonneg in H4. lia.
 Qed.
 
-(* the +1 is real: a disciplined history that exceeds max_total_bytes by one byte
-   (a 1-RTT packet carrying a single PING when exactly header + 1 + tag bytes of budget remain) *)
-Definition overshoot_cfg : cfg := mkCfg false 1200 8 8 0 None (Some 28).
+(* the history that exceeded max_total_bytes by one byte before the fix (a 1-RTT packet carrying a single PING when
+   exactly header + 1 + tag bytes of budget remain): start_frame now raises QuicPacketBuilderStop, nothing is sent *)
+Definition overshoot_cfg : cfg := mkCfg false 1200 8 8 0 None (Some 28) (Some 1500).
 Definition overshoot_ops : list op := [OpStartPacket PT_ONE_RTT; OpStartFrame FT_PING 1; OpFlush].
 
-Theorem total_le_budget_refuted :
-  exists (c : cfg) (mt : Z) (ops : list op),
-    c_max_total c = Some mt /\ wf_cfg c /\ c_mds c = 1200 /\ disciplined c (init_st c 0) ops = true /\
-    zsum (snd (run c (init_st c 0) ops)) = mt + 1.
-Proof.
-  exists overshoot_cfg, 28, overshoot_ops.
-  split; [reflexivity|]. split; [unfold wf_cfg; cbn; lia|]. split; [reflexivity|].
-  split; vm_compute; reflexivity.
-Qed.
+Example former_overshoot_now_stops :
+  disciplined overshoot_cfg (init_st overshoot_cfg 0) overshoot_ops = true /\
+  fst (fst (step overshoot_cfg (fst (run overshoot_cfg (init_st overshoot_cfg 0) [OpStartPacket PT_ONE_RTT]))
+                 (OpStartFrame FT_PING 1))) = OStop /\
+  snd (run overshoot_cfg (init_st overshoot_cfg 0) overshoot_ops) = [] /\
+  snd (run (mkCfg false 1200 8 8 0 None (Some 29) (Some 1500)) (init_st (mkCfg false 1200 8 8 0 None (Some 29) (Some 1500)) 0) overshoot_ops) = [29].
+Proof. repeat split; vm_compute; reflexivity. Qed.
 
-(* hypotheses of the budget theorems are satisfiable by a non-trivial history *)
+(* why the discipline says "bytes are pushed only after a frame was started": the reservation is made by start_frame,
+   a byte pushed into an EMPTY packet (something connection.py never does) still gets the unreserved sample padding *)
+Example push_without_frame_overshoots :
+  let ops := [OpStartPacket PT_ONE_RTT; OpPush 1; OpFlush] in
+  disciplined overshoot_cfg (init_st overshoot_cfg 0) ops = false /\
+  snd (run overshoot_cfg (init_st overshoot_cfg 0) ops) = [29].
+Proof. split; vm_compute; reflexivity. Qed.
+
+(* hypotheses of the budget theorem are satisfiable by a non-trivial history; the last packet has a one-byte payload *)
 Example budget_hyps_satisfiable :
-  let c := mkCfg true 1200 8 8 0 (Some 5000) (Some 2500) in
+  let c := mkCfg true 1200 8 8 0 (Some 5000) (Some 2500) (Some 1500) in
   let ops := [OpStartPacket PT_INITIAL; OpStartFrame FT_CRYPTO 4; OpPush 300; OpStartPacket PT_HANDSHAKE;
-              OpStartFrame FT_CRYPTO 4; OpPush 600; OpStartPacket PT_ONE_RTT; OpStartFrame 8 4; OpPush 50; OpFlush] in
-  wf_cfg c /\ disciplined c (init_st c 0) ops = true /\ nosample c (init_st c 0) ops = true /\
-  snd (run c (init_st c 0) ops) = [1200].
+              OpStartFrame FT_CRYPTO 4; OpPush 600; OpStartPacket PT_ONE_RTT; OpStartFrame 8 4; OpPush 50; OpFlush;
+              OpStartPacket PT_ONE_RTT; OpStartFrame FT_PING 1; OpFlush] in
+  wf_cfg c /\ crypto_fits c /\ disciplined c (init_st c 0) ops = true /\
+  snd (run c (init_st c 0) ops) = [1200; 29].
 Proof.
-  cbv zeta. split; [unfold wf_cfg; cbn; lia|]. split; [vm_compute; reflexivity|].
-  split; vm_compute; reflexivity.
+  cbv zeta. split; [unfold wf_cfg; cbn; lia|]. split; [unfold crypto_fits; cbn; lia|]. split; vm_compute; reflexivity.
 Qed.
